@@ -26,12 +26,44 @@ NAME_ATOMS = ["a", "b", "field", " ", "  ", ";", "=", ":", ",", "é", "ü", "名
 TEXT_ATOMS = NAME_ATOMS + ['"', "\\", "\r", "\n", "\r\n", "%22", "--", "--bound", "\r\n--bound", "\r\n--bound--", "=", "&", "퟿", "", "￿", "\U0010ffff"]
 
 
+# percent-escape look-alikes: names and file names are never percent-decoded (only `%22` is special, and
+# the property excludes it), so `%` followed by two hex digits of either case must come back verbatim.
+# The interesting targets are escapes of control characters, of the header syntax (`"` `;` `=` `\`),
+# of `%` itself and of UTF-8 sequences.
+PCT_TARGETS = [0x00, 0x09, 0x0A, 0x0D, 0x1F, 0x20, 0x25, 0x2B, 0x2F, 0x3B, 0x3D, 0x5C, 0x7F, 0x80, 0xC3, 0xA9, 0xFF]
+HEXD = "0123456789abcdefABCDEF"
+
+
+def pct_atom(rng):
+    r = rng.random()
+    if r < 0.5:
+        b = rng.choice(PCT_TARGETS)
+        s = "%%%02X" % b if rng.random() < 0.6 else "%%%02x" % b
+    elif r < 0.8:
+        s = "%" + rng.choice(HEXD) + rng.choice(HEXD)
+    elif r < 0.9:
+        s = rng.choice(["%C3%A9", "%e2%82%ac", "%0D%0A", "%0d%0a", "%250A", "%%0A", "%0A%", "%u000A", "&#10;", "%5Cn"])
+    else:
+        s = rng.choice(["%", "%%", "%0", "%A", "%G0", "%0G"])
+    return s if s != "%22" else "%23"
+
+
 def rand_name(rng, maxlen=4):
     k = rng.choice([0, 1, 1, 2, 3, maxlen])
-    s = "".join(rng.choice(NAME_ATOMS) for _ in range(k))
+    s = "".join(pct_atom(rng) if rng.random() < 0.25 else rng.choice(NAME_ATOMS) for _ in range(k))
     while "%22" in s:
         s = s.replace("%22", "%2")
     return s
+
+
+def pct_family():
+    """every `%XX` (both letter cases) alone and inside a name, except `%22`"""
+    out = []
+    for b in range(256):
+        for t in sorted({"%%%02X" % b, "%%%02x" % b}):
+            if t != "%22":
+                out.append(t)
+    return out
 
 
 # file names that look like Python's pseudo stream names (`<stderr>`, `<fdopen>`: FileStorage discards
@@ -147,6 +179,11 @@ class OptionsStream(Stream):
     corpus = [{"v": hs(s)} for s in ["", "form-data", 'form-data; name="a"', 'form-data; name="a"; filename="f.txt"', 'form-data; name=a; filename=b', 'form-data; name="a;b"; filename="c\\\\d"', 'form-data; name="q\\"q"', 'form-data; name="%22"', "text/plain; charset=utf-8", "text/plain;charset=UTF-8 ; x=y", 'a; b="c', "a; =b", "a; b", 'a; b*0="x"; b*1="y"', "a; b=c; b=d", ' a ; B="C" ', "a;b=c;;d=e", 'a; b=""', "a; b=c d; e=f", 'form-data; name="a"; name="b"', "; a=b", 'x; a="\\\\"; b="\\""', "a; *0=x", "a; *1=x; b*0=y", "é ;*0=*1utf-8"]]
 
     def cases(self, rng, tier):
+        # the family "a percent escape look-alike inside a quoted name / file name", exhaustively
+        for i, t in enumerate(pct_family()):
+            n, f = ("sale 50" + t + "off", None) if i % 2 else ("f", "report" + t + "2024.txt")
+            v = f'form-data; name="{n}"' + (f'; filename="{f}"' if f is not None else "")
+            yield {"v": hs(v), "n": hs(n), "f": opt(hs, f)}
         for _ in range(1500 if tier == "quick" else 25000):
             if rng.random() < 0.5:
                 n, f = rand_name(rng), (rand_name(rng) if rng.random() < 0.5 else None)
@@ -436,11 +473,172 @@ class ClientRoundtrip(Stream):
         return case["via"] + (" multipart" if case["files"] else " urlencoded" if case["via"] == "environ" else " multipart") + (" args" if case["args"] else "") + big
 
 
+FS_HEADERS = [
+    [],
+    [],
+    [("Content-Type", "text/plain")],
+    [("content-type", "image/png"), ("X-A", "b")],
+    [("X-A", "1"), ("Content-Type", "a/b"), ("CONTENT-TYPE", "c/d"), ("X-B", "2")],
+    [("X-É", "ü")],
+    [("Content-Type", "text/plain; charset=utf-8")],
+    [("Content-Length", "3")],
+]
+GUESSABLE = ["a.txt", "a b.png", "é.jpg", "x.tar.gz", "noext", "<x>", "x.unknownext", ".png", "a.PNG", "x.json", ""]
+
+
+def order_as_iter_data(items):
+    """order in which `_iter_data` walks a dict of lists built from the items: keys by first occurrence"""
+    keys, by = [], {}
+    for it in items:
+        if it[1] not in by:
+            keys.append(it[1])
+            by[it[1]] = []
+        by[it[1]].append(it)
+    return [it for k in keys for it in by[k]]
+
+
+class ClientEncode(Stream):
+    """`werkzeug.test.encode_multipart` (= stream_encode_multipart: event order, 16 KiB Data events, content
+    type defaulting, Headers.update) vs Model/MultipartClient.lean; oracle: parsing the bytes with
+    MultiPartParser gives back the names, text values, file names, content types and contents"""
+
+    name = "client-encode"
+
+    def __init__(self):
+        def T(k, v):
+            return ["T", hs(k), hs(v)]
+
+        def U(k, fn, hdrs, c):
+            return ["U", hs(k), None if fn is None else hs(fn), [[hs(a), hs(b)] for a, b in hdrs], hx(c)]
+
+        self.corpus = [
+            {"b": hx(b"B"), "items": [T("a", "1"), T("a", ""), T("é", "ü\r\n--B")]},
+            {"b": hx(b"B"), "items": [U("f", "a.txt", [], b"abc"), U("f", "x.unknownext", [], b""), U("g", "<x>", [("Content-Type", "text/plain")], b"\r\n--")]},
+            # more than one 16 KiB read: Data(more_data=True) events, then the empty last one
+            {"b": hx(b"B"), "items": [U("f", "big.bin", [], b"x" * 40000), T("t", "after")]},
+            {"b": hx(b"B"), "items": [U("f", "e.bin", [("X-A", "1"), ("Content-Type", "a/b"), ("CONTENT-TYPE", "c/d")], b"d" * 16384)]},
+            # a FileStorage without a file name is sent as a plain field
+            {"b": hx(b"B"), "items": [U("f", None, [], b"abc")]},
+            {"b": hx(b"B"), "items": [U("f", "", [], b"abc")]},
+            {"b": hx(b"B"), "items": []},
+        ]
+
+    def cases(self, rng, tier):
+        for _ in range(700 if tier == "quick" else 12000):
+            bd = rng.choice([b"bound", b"B", b"----WebKitFormBoundary7MA4YWxkTrZu0gW", b"x.y+z"])
+            items = []
+            for _ in range(rng.choice([0, 1, 1, 2, 3, 5])):
+                key = rand_name(rng) or "k"
+                if rng.random() < 0.5:
+                    items.append(["T", hs(key), hs(rand_text(rng))])
+                else:
+                    fn = rng.choice(GUESSABLE) if rng.random() < 0.5 else rand_filename(rng)
+                    if rng.random() < 0.07:
+                        fn = None
+                    content = rand_bytes(rng, bd)
+                    if rng.random() < 0.05:
+                        content = content + b"z" * rng.choice([16383, 16384, 16385, 33000])
+                    hdrs = rng.choice(FS_HEADERS)
+                    items.append(["U", hs(key), None if fn is None else hs(fn), [[hs(a), hs(b)] for a, b in hdrs], hx(content)])
+            if rng.random() < 0.3 and items:
+                it = list(rng.choice(items))  # a repeated key, possibly mixing a text and a file value
+                it[1] = items[0][1]
+                items.append(it)
+            yield {"b": hx(bd), "items": items}
+
+    @staticmethod
+    def build(case):
+        import io
+
+        from werkzeug.datastructures import FileStorage, Headers
+
+        data = {}
+        for it in case["items"]:
+            key = unhs(it[1])
+            if it[0] == "T":
+                v = unhs(it[2])
+            else:
+                v = FileStorage(io.BytesIO(unhx(it[4])), None if it[2] is None else unhs(it[2]), key, headers=Headers([(unhs(a), unhs(b)) for a, b in it[3]]))
+            data.setdefault(key, []).append(v)
+        return data
+
+    def real(self, case):
+        from werkzeug.test import encode_multipart
+
+        _, body = encode_multipart(self.build(case), boundary=unhx(case["b"]).decode("ascii"))
+        return hx(body)
+
+    def model_line(self, case):
+        import mimetypes
+
+        out = []
+        for it in order_as_iter_data(case["items"]):
+            if it[0] == "T":
+                out.append("T:" + it[1] + ":" + it[2])
+            else:
+                fn = None if it[2] is None else unhs(it[2])
+                g = mimetypes.guess_type(fn)[0] if fn else None
+                h = "&".join(a + "=" + b for a, b in it[3]) if it[3] else "[]"
+                out.append("U:" + it[1] + ":" + opt(str, it[2]) + ":" + opt(hs, g) + ":" + h + ":" + it[4])
+        return line("mp.client", case["b"], out_list(out))
+
+    def oracle(self, case, real_out):
+        import io
+        import mimetypes
+
+        from werkzeug.formparser import MultiPartParser
+
+        if real_out.startswith("EXC"):
+            return f"encode_multipart raised {real_out}"
+        bd = unhx(case["b"])
+        items = order_as_iter_data(case["items"])
+        for it in items:
+            payload = unhs(it[2]).encode() if it[0] == "T" else unhx(it[4])
+            if not no_delimiter(payload, bd):
+                return None  # a payload line that starts with --boundary: outside the property's domain
+            if it[0] == "U" and it[2] is None:
+                return None  # an upload without a file name is sent as a field (not a file round trip)
+        body = unhx(real_out)
+        form, files = MultiPartParser().parse(io.BytesIO(body), bd, len(body))
+        got_f = list(form.items(multi=True))
+        got_u = [(k, f.filename, f.content_type, f.stream.read()) for k, f in files.items(multi=True)]
+        want_f = group_by_first([(unhs(it[1]), unhs(it[2])) for it in items if it[0] == "T"])
+        want_u = []
+        for it in items:
+            if it[0] == "U":
+                fn = unhs(it[2])
+                own = [unhs(b) for a, b in it[3] if unhs(a).lower() == "content-type"]
+                ct = own[0] if own else (fn and mimetypes.guess_type(fn)[0] or "application/octet-stream")
+                want_u.append((unhs(it[1]), fn, ct, unhx(it[4])))
+        want_u = group_by_first(want_u)
+        if got_f != want_f:
+            return f"fields differ after encode_multipart -> MultiPartParser: {got_f!r:.120} vs {want_f!r:.120}"
+        if got_u != want_u:
+            return f"files differ after encode_multipart -> MultiPartParser: {got_u!r:.160} vs {want_u!r:.160}"
+        return None
+
+    def bucket(self, case, real_out):
+        n_u = sum(1 for it in case["items"] if it[0] == "U")
+        big = any(it[0] == "U" and len(it[4]) > 32768 for it in case["items"])
+        return f"fields={min(len(case['items']) - n_u, 3)} files={min(n_u, 3)}" + (" big" if big else "")
+
+
+def group_by_first(items):
+    """MultiDict.items(multi=True) order"""
+    keys, by = [], {}
+    for it in items:
+        if it[0] not in by:
+            keys.append(it[0])
+            by[it[0]] = []
+        by[it[0]].append(it)
+    return [it for k in keys for it in by[k]]
+
+
 CHECK = Check(
     prop="C02",
-    gen=["Multipart", "Urlencode"],
+    gen=["Multipart", "Urlencode", "FormOptions"],
     modules=["WzVerif.Props.C02"],
-    streams=[UrlKernels(), OptionsStream(), EncoderEvents(), ClientRoundtrip()],
+    streams=[UrlKernels(), OptionsStream(), EncoderEvents(), ClientEncode(), ClientRoundtrip()],
     assumptions=[
         "urllib.parse quote_plus / urlencode / unquote / parse_qsl are stdlib: modelled by hand-written functions and validated by stream urlencode-kernels, not verified",
         "UTF-8 is Lean core's encoder / strict decoder (round trip proved in Util/Bytes.lean); lone surrogates are outside the domain (Python str may hold them, List Char cannot)",
